@@ -138,3 +138,8 @@ def check(ctx):
         ctx.guard('R1', fsite(f), r1)
     if nopen < 3:
         ctx.broken('gate', 'file-opening sites', 'file opening site of the callback not found')
+    # under MPI only one process may write the file: ranks writing the same temporary file
+    # concurrently break the protocol although each of them follows it (shared with C20)
+    from .common import share
+    share(ctx, 'C20', 'R2/C20.', ['R4.rank_dependent_effect'])
+
